@@ -135,7 +135,7 @@ OutputFamilies ==
          \/ (j < j2 /\ Give(Adv("swapXY", j, j2), [out EXCEPT ![q] = [@ EXCEPT ![j] = out[q][j2], ![j2] = out[q][j]]], prf, par))
          \/ (j < j2 /\ Give(Adv("swapX", j, j2),
                             [out EXCEPT ![q] = [@ EXCEPT ![j] = [out[q][j] EXCEPT !.half = TRUE], ![j2] = [out[q][j2] EXCEPT !.half = TRUE]]], prf, par))
-         \/ (j < j2 /\ Kind = "pair" /\ Give(Adv("kshift", j, j2),
+         \/ (j < j2 /\ Kind \in {"pair", "seq"} /\ Give(Adv("kshift", j, j2),
                             [out EXCEPT ![q] = [@ EXCEPT ![j] = Junk(out[q][j]), ![j2] = Junk(out[q][j2])]], prf, par))
 
 \* "seq" only: every sequence shuffled correctly but sequence q with ANOTHER permutation (slots j,j2 exchanged in all others)
